@@ -113,6 +113,7 @@ def step (nw : Nat) (s : State) : Event → Option State
   | .wBegin c =>
     match s.waiter c with
     | .none => some { s with waiter := upd s.waiter c (.p1 s.next) }
+    | .returned _ => some { s with waiter := upd s.waiter c (.p1 s.next) }   -- a caller may wait() again
     | _ => none
   | .wEmpty c =>
     match s.waiter c with
